@@ -119,7 +119,8 @@ def run_mc_walk(pid, scn, gh_exe, timeout=3600, heap="6g"):
     tlc_log = os.path.join(d, "tlc.log")
     if scn.walk:
         plan = {"group": scn.group, "reps": scn.reps, "replay_dir": vf.REPLAYS,
-                "tag": "%s-%s-walk" % (pid, scn.name), "crash_note": os.path.join(d, "crash.json"), "max_fail": 3}
+                "tag": "%s-%s-walk" % (pid, scn.name), "crash_note": os.path.join(d, "crash.json"), "max_fail": 3,
+                "init_n": getattr(scn, "initn", 0)}
         planf = os.path.join(d, "plan.json")
         with open(planf, "w") as f:
             json.dump(plan, f)
@@ -257,7 +258,9 @@ class PairScenario:
     forces = (False,)
 
     def __init__(self, name, group, maxn, ops=None, labels=(0, 1), mults=(0, 1, 2), maxmult=2,
-                 weights="WeightSetH", walk=True, reps=2, workers=4):
+                 weights="WeightSetH", walk=True, reps=2, workers=4, initn=0, constraints=()):
+        self.initn = initn
+        self.constraints = list(constraints)
         self.name, self.group, self.maxn = name, group, maxn
         self.directed, self.kind = GROUPS[group]
         self.ops = list(ops) if ops is not None else [o for o in mutators(group, reciprocal=False)
@@ -279,4 +282,5 @@ class PairScenario:
             "MaxMult": "= %d" % self.maxmult,
             "WeightArgs": "<- " + self.weights,
             "EmitJson": "= " + ("TRUE" if emit else "FALSE"),
+            "InitN": "= %d" % self.initn,
         }
